@@ -2,7 +2,7 @@
 import json
 from concurrent.futures import ProcessPoolExecutor
 
-from vlib import c09_build, c09_contracts as cc, c09_corr as cr, c09_tpl, configs, coqrun
+from vlib import c09_build, c09_contracts as cc, c09_corr as cr, c09_handover, c09_tpl, configs, coqrun
 from vlib.common import COQ
 
 LEVEL = "proof"
@@ -207,6 +207,9 @@ def run(ctx):
     ctx.log(f"exit check at {_t.time() - ctx.t0:.0f}s")
     found, n_or, n_mis = part_corr(ctx, jobs, res, atts, only)
     ctx.log(f"correspondence at {_t.time() - ctx.t0:.0f}s")
+    if not only:
+        found = c09_handover.part_handover(ctx, cfgs) or found
+        ctx.log(f"hand-over family at {_t.time() - ctx.t0:.0f}s")
     # verdicts for proof / placement breaks: Search = the correspondence above
     if pending is not None and not found:
         ctx.violation(pending["kind"], pending["name"], pending["detail"])
